@@ -17,11 +17,17 @@ class Buffers:
         self.waited = 0
         self.departures = 0
         self.batches = 0
+        self.n_recv = 0
         self.decimal = bool(ctx.spec.get('decimal'))
 
     def on_event(self, env, head):
         ctx, m = self.ctx, self.m
         now = env.now
+        log = m.log
+        moved = set()          # parts some device received during this event
+        while self.n_recv < len(log.receives):
+            moved.add(id(log.receives[self.n_recv][2]))
+            self.n_recv += 1
         for b in self.bufs:
             dev = m.devs[b]
             stored = dev.stored_parts
@@ -40,21 +46,26 @@ class Buffers:
             prev = self.prev[b]
             if len(prev) == len(stored) and all(x is y for x, y in zip(prev, stored)):
                 continue
-            # departures must be a prefix of the previous content, arrivals a suffix of the new
-            ids_now = {id(p) for p in stored}
-            k = 0
-            while k < len(prev) and id(prev[k]) not in ids_now:
-                k += 1
-            left = prev[:k]
-            rest = prev[k:]
-            if len(stored) < len(rest) or any(x is not y for x, y in zip(rest, stored)):
+            # departures must be a prefix of the previous content, arrivals a suffix of the new.  A part that
+            # left may re-enter the same buffer within the event (re-entrant group), so identity alone does not
+            # tell: take the fewest departures k with  new == prev[k:] + arrivals
+            k = None
+            for cand in range(len(prev) + 1):
+                rest = prev[cand:]
+                if len(stored) >= len(rest) and all(x is y for x, y in zip(rest, stored)) \
+                        and all(id(x) in moved for x in prev[:cand]):
+                    # (a part counts as departed only if some device received it in this event)
+                    k = cand
+                    break
+            if k is None:
                 ctx.report('fifo', f'buffer {b}: content changed from {[p.name for p in prev]} to '
                            f'{[p.name for p in stored]}: a part other than the oldest left, or the order changed')
                 return
+            left = prev[:k]
+            rest = prev[k:]
             new = stored[len(rest):]
-            if any(id(p) in {id(q) for q in prev} for p in new):
-                ctx.report('fifo', f'buffer {b}: part re-ordered: {[p.name for p in prev]} -> '
-                           f'{[p.name for p in stored]}')
+            if any(any(p is q for q in rest) for p in new):
+                ctx.report('fifo', f'buffer {b}: part stored twice: {[p.name for p in stored]}')
                 return
             delay = dev.minimum_delay
             for p in left:
